@@ -74,6 +74,8 @@ def C08(s, known):
     if m["extra"]["files"] < m["evaluations"] * 0.5:
         raise __import__("vcheck").Undecided("fewer than half of the generated documents produced a file")
     s.validate(m, "SMF", cfg="C08Trace.cfg", known=known, shard=max(20, len_records(m) // 12 + 1))
+    # growth beyond the listed properties (recorded as a note when it diverges, never a violation)
+    s.validate(m, "EventTrace", known=known, shard=max(20, len_records(m) // 12 + 1), drift=True)
     return dict(level="model_checking",
                 explanation="SMF.tla reads every byte of every file the real `crd write` produced (one TLC state per byte) and re-derives the "
                             "event list of the harness reader; SMFSanity: the recogniser accepts hand-built minimal files and rejects each corruption class")
